@@ -269,8 +269,10 @@ by_rank(struct proc *p1, struct proc *p2)
 		return -1;
 	if (id1 > id2)
 		return +1;
-	else
-		return 0;
+
+	/* Two processes with the same rank: let the metadata decide (the
+	 * PID), not the order in which the streams were found */
+	return by_pid(p1, p2);
 }
 
 static int
